@@ -93,7 +93,7 @@ func (s schema) files() map[string]string {
 			fmt.Fprintf(b, "%s %s {\n", kw, t.Name)
 			for _, f := range byFile[file] {
 				force := " @goField(forceResolver: true)"
-				if t.Name == "Query" || t.Plain {
+				if t.Name == "Query" || t.Name == "Subscription" || t.Plain {
 					force = ""
 				}
 				fmt.Fprintf(b, "  %s%s: %s%s\n", f.Name, f.Args, f.Type, force)
